@@ -830,12 +830,15 @@ func fuzzyMatchScore(text, pattern string) int {
 	if pattern == "" {
 		return fuzzyScoreEmptyPattern
 	}
+	return fuzzyMatchScoreRunes([]rune(strings.ToLower(text)), []rune(strings.ToLower(pattern)))
+}
 
-	text = strings.ToLower(text)
-	pattern = strings.ToLower(pattern)
-
-	textRunes := []rune(text)
-	patternRunes := []rune(pattern)
+// fuzzyMatchScoreRunes scores lower-cased text against a lower-cased,
+// non-empty pattern. A pattern longer than the text cannot match.
+func fuzzyMatchScoreRunes(textRunes, patternRunes []rune) int {
+	if len(patternRunes) > len(textRunes) {
+		return 0
+	}
 
 	j := 0
 	score := 0
@@ -879,11 +882,13 @@ func fuzzyMatchScoreBySegments(accountName, pattern string) int {
 		return fuzzyScoreEmptyPattern
 	}
 
-	segments := strings.Split(accountName, ":")
+	// lower-case the pattern once, not once per segment
+	patternRunes := []rune(strings.ToLower(pattern))
+	segments := strings.Split(strings.ToLower(accountName), ":")
 	bestScore := 0
 
 	for _, segment := range segments {
-		if score := fuzzyMatchScore(segment, pattern); score > bestScore {
+		if score := fuzzyMatchScoreRunes([]rune(segment), patternRunes); score > bestScore {
 			bestScore = score
 		}
 	}
